@@ -121,10 +121,35 @@ def ref_env():
     return {n: A.sym(n) for n in ("y", "yhat", "w", "sigma", "a", "k")}
 
 
+def check_derivatives(repo, res, name, r1="R-ALG(d1)", r2="R-ALG(d2)"):
+    """derivative identities of one kernel (unit weights: 'derivatives of the unweighted loss'); r2=None skips the second derivative"""
+    kcls = repo.cls(M.M_LOSSTYPE, name)
+    try:
+        f0, val, _ = eval_method(repo, kcls, name, "loss", True, unit_weight=True)
+        f1, d1, _ = eval_method(repo, kcls, name, "diff_loss", True, unit_weight=True)
+        want1 = A.diff(val, "yhat")
+        res.check(d1 == want1, r1, f1, "diff_loss", "%s.diff_loss is d loss / d yhat" % name,
+                  "%s.diff_loss is %r but d loss/d yhat is %r" % (name, d1, want1), node=f1.node)
+        if r2 is not None:
+            f2, d2, _ = eval_method(repo, kcls, name, "diff2Loss", True, unit_weight=True)
+            want2 = A.diff(d1, "yhat")
+            res.check(d2 == want2, r2, f2, "diff2Loss", "%s.diff2Loss is d diff_loss / d yhat" % name,
+                      "%s.diff2Loss is %r but d diff_loss/d yhat is %r" % (name, d2, want2), node=f2.node)
+        # and with apply_weighting=False the same functions result (weights only scale residuals)
+        _, d1u, _ = eval_method(repo, kcls, name, "diff_loss", False, unit_weight=False)
+        res.check(d1u == want1, r1, f1, "diff_loss(unweighted)", "unweighted diff_loss is the derivative of the unweighted loss",
+                  "%s.diff_loss(apply_weighting=False) is %r, expected %r" % (name, d1u, want1), node=f1.node)
+        return 2
+    except A.Undecided as e:
+        res.undecided(r1, kcls.methods.get("diff_loss") or name, "derivatives", "cannot bring %s derivatives into canonical form: %s" % (name, e))
+        return 0
+
+
 def check(repo, res, tier):
     res.rule("R-ALG(value)", "loss == minus the summed reference log-density (Square: sum of squared weighted residuals)")
     res.rule("R-ALG(d1)", "d/dyhat of the unweighted loss element == diff_loss")
     res.rule("R-ALG(d2)", "d/dyhat of diff_loss == diff2Loss")
+    res.rule("R-LOGSPACE", "the log-likelihood is computed in log space (no logarithm of an exponentiated / plain density)")
     res.s_clauses = ["S1 value", "S2 first derivative", "S3 second derivative"]
     res.n_clauses = ["spread broadcasting in the constructors (runtime shapes)",
                      "floating-point evaluation; validity-domain checks in the constructors"]
@@ -134,8 +159,16 @@ def check(repo, res, tier):
         # ---- value
         for aw in ((True, False) if name in ("Square", "Normal") else (True,)):
             try:
+                del A.LOG_OF_EXP[:]
                 f, val, inl = eval_method(repo, kcls, name, "loss", aw, unit_weight=False)
+                cancelled = list(A.LOG_OF_EXP)
                 n += 1
+                if name != "Square":
+                    res.check(not cancelled, "R-LOGSPACE", f, "loss(apply_weighting=%s)" % aw,
+                              "%s.loss is assembled from log-densities without taking the logarithm of a plain density" % name,
+                              "%s.loss takes log() of a quantity that contains exp(...) / a plain pdf or pmf (%d time(s)): equal on paper, but the density "
+                              "underflows to 0 for predictions far from the data and the loss becomes inf instead of the finite negative log-likelihood"
+                              % (name, len(cancelled)), node=f.node)
                 res.functions.update(inl.inlined)
                 if name == "Square":
                     ref = A.Interp(ref_env()).ev(ast.parse(SPEC.SQUARE, mode="eval").body)
@@ -156,24 +189,7 @@ def check(repo, res, tier):
                           node=f.node)
             except A.Undecided as e:
                 res.undecided("R-ALG(value)", kcls.methods.get("loss") or "%s.loss" % name, "loss", "cannot bring %s.loss into canonical form: %s" % (name, e))
-        # ---- derivatives (unit weights: 'derivatives of the unweighted loss')
-        try:
-            f0, val, _ = eval_method(repo, kcls, name, "loss", True, unit_weight=True)
-            f1, d1, _ = eval_method(repo, kcls, name, "diff_loss", True, unit_weight=True)
-            f2, d2, _ = eval_method(repo, kcls, name, "diff2Loss", True, unit_weight=True)
-            n += 2
-            want1 = A.diff(val, "yhat")
-            res.check(d1 == want1, "R-ALG(d1)", f1, "diff_loss", "%s.diff_loss is d loss / d yhat" % name,
-                      "%s.diff_loss is %r but d loss/d yhat is %r" % (name, d1, want1), node=f1.node)
-            want2 = A.diff(d1, "yhat")
-            res.check(d2 == want2, "R-ALG(d2)", f2, "diff2Loss", "%s.diff2Loss is d diff_loss / d yhat" % name,
-                      "%s.diff2Loss is %r but d diff_loss/d yhat is %r" % (name, d2, want2), node=f2.node)
-            # and with apply_weighting=False the same functions result (weights only scale residuals)
-            _, d1u, _ = eval_method(repo, kcls, name, "diff_loss", False, unit_weight=False)
-            res.check(d1u == want1, "R-ALG(d1)", f1, "diff_loss(unweighted)", "unweighted diff_loss is the derivative of the unweighted loss",
-                      "%s.diff_loss(apply_weighting=False) is %r, expected %r" % (name, d1u, want1), node=f1.node)
-        except A.Undecided as e:
-            res.undecided("R-ALG(d1)", kcls.methods.get("diff_loss") or name, "derivatives", "cannot bring %s derivatives into canonical form: %s" % (name, e))
+        n += check_derivatives(repo, res, name)
     res.floor("kernel methods brought to canonical form", n, 15)
     _check_shape_inputs(repo, res)
     _check_dtype(repo, res)
@@ -206,6 +222,8 @@ def _check_shape_inputs(repo, res):
         return fn
     for callee, (names, src) in SPEC.SCIPY_LOG.items():
         base_summ[callee] = formula(names, src)
+    for plain, logname in SPEC.SCIPY_PLAIN.items():
+        base_summ[plain] = (lambda g: lambda *a, **k: base_summ["np.exp"](g(*a, **k)))(base_summ[logname])
 
     def chained_distn(name):
         fn = distn.functions[name]
@@ -220,9 +238,8 @@ def _check_shape_inputs(repo, res):
             return v
         return call
     summ = dict(base_summ)
-    for name in ("dpois", "dnbinom", "nb2pmf", "gamma_mu_shape"):
-        if name in distn.functions:
-            summ[name] = chained_distn(name)
+    for name in distn.functions:
+        summ[name] = chained_distn(name)
     base = repo.cls(M.M_LOSSTYPE, "Baseloss_Type")
     resid_fn = base.methods["residual"]
 
